@@ -264,6 +264,7 @@ impl SemanticState {
             if to_resolve.is_empty() {
                 break;
             }
+            let registered = self.type_registry.len();
 
             for resolvee_path in &to_resolve {
                 let ItemState::Unresolved(definition) = self
@@ -292,7 +293,11 @@ impl SemanticState {
                     ItemState::Resolved(item);
             }
 
-            if to_resolve == self.type_registry.unresolved() {
+            // A pass that resolved nothing can still have made progress: attempting a type
+            // generates its vftable type, which other types may have been waiting for.
+            if to_resolve == self.type_registry.unresolved()
+                && registered == self.type_registry.len()
+            {
                 // Oh no! We failed to resolve any new types!
                 #[cfg(pyxis_verif)]
                 crate::verif::probe("bail:no_progress");
